@@ -284,6 +284,18 @@ func OsRename(a, b string) error {
 	return err
 }
 
+func OsLink(a, b string) error {
+	e, inj := pre("Link", a, b)
+	if inj != nil {
+		err := &os.LinkError{Op: "link", Old: a, New: b, Err: inj.Errno}
+		post(e, err, true)
+		return err
+	}
+	err := os.Link(a, b)
+	post(e, err, false)
+	return err
+}
+
 func OsReadDir(name string) ([]os.DirEntry, error) {
 	e, inj := pre("ReadDir", name, "")
 	if inj != nil {
